@@ -61,6 +61,9 @@ pub struct Pipe {
     pub budget: u64,
     /// Maximum number of bytes handed out per read (short reads).
     pub max_chunk: usize,
+    /// A drained source answers `Err(UnexpectedEof)` WITH a payload (what framing /
+    /// decompressing readers do) instead of `Ok(0)`.
+    pub eof_as_error: bool,
 }
 
 impl Pipe {
@@ -124,6 +127,9 @@ impl Read for SimSource {
         }
         if p.pos >= p.data.len() {
             p.eof_reads += 1;
+            if p.eof_as_error {
+                return Err(Error::new(ErrorKind::UnexpectedEof, "sim: end of source"));
+            }
             return Ok(0);
         }
         let n = buf.len().min(p.data.len() - p.pos).min(p.max_chunk.max(1));
